@@ -163,3 +163,26 @@ Example ex_loc_file :
   snd r = OOk "dep.yaml" /\
   lookup ["new"; "t"; "dep.yaml"] (w_fs (fst r)) = Some (EFile (CRaw 4)).
 Proof. vm_compute. split; reflexivity. Qed.
+
+(* the hypothesis of nothing_created_nothing_left is met by a fault on Mkdir("/new") (index 2) *)
+Definition quiet_evb (e : event) : bool :=
+  (if mutating (ev_op e) then negb (ev_ok e) else true) &&
+  (if opcode_is_remove (ev_op e) then String.eqb (ev_path e) "" || negb (ev_ok e) else true).
+
+Lemma quiet_evb_spec e : quiet_evb e = true -> quiet_ev e.
+Proof.
+  unfold quiet_evb, quiet_ev. intros H. apply andb_prop in H. destruct H as [H1 H2]. split.
+  - intros M. rewrite M in H1. apply negb_true_iff in H1. exact H1.
+  - intros R. rewrite R in H2. cbn in H2. apply orb_prop in H2. destruct H2 as [H2|H2].
+    + left. apply String.eqb_eq; auto.
+    + right. apply negb_true_iff in H2. exact H2.
+Qed.
+
+Example ex_early :
+  snd (ex_run (Some 2)) = OExn XErr /\ Forall quiet_ev (w_trace (fst (ex_run (Some 2)))).
+Proof.
+  split; [vm_compute; reflexivity|].
+  apply Forall_forall. intros e Hin. apply quiet_evb_spec.
+  assert (F : forallb quiet_evb (w_trace (fst (ex_run (Some 2)))) = true) by (vm_compute; reflexivity).
+  rewrite forallb_forall in F. auto.
+Qed.
